@@ -28,11 +28,19 @@ for name in sorted(os.listdir(os.path.join(V, "seeded"))):
         lines = ck.stdout.splitlines()
         viol = [l for l in lines if l.startswith("VIOLATION")]
         caught_by = sorted({os.path.basename(l.split("replay=")[1].split(" ")[0]).replace(".json", "") for l in viol})
+        tiers = set()
+        for l in viol:
+            rp = l.split("replay=")[1].split(" ")[0]
+            try:
+                note = json.load(open(rp)).get("note", "")
+            except Exception:
+                note = ""
+            tiers.add("bounded harness" if "bounded stand-in" in note else "run-time contract" if "executing the contract" in note else "proof obligation")
         results[name] = dict(property=prop, applies=True, demo_exit_with_change=dm.returncode, check_exit=ck.returncode, caught=bool(viol),
-                             n_violation_lines=len(viol), caught_by=caught_by[:12], summary_line=(lines[-1] if lines else "")[:300],
+                             n_violation_lines=len(viol), caught_by=caught_by[:12], tiers=sorted(tiers), summary_line=(lines[-1] if lines else "")[:300],
                              seconds=round(time.time() - t))
         meta["our_checks"] = dict(command="D3VC_REPO=<scratch copy with the patch> ./check %s --no-evidence" % prop, exit=ck.returncode,
-                                  caught=bool(viol), reported_by=caught_by[:12])
+                                  caught=bool(viol), reported_by=caught_by[:12], tiers=sorted(tiers))
         json.dump(meta, open(os.path.join(d, "meta.json"), "w"), indent=1)
         print(name, prop, "demo", dm.returncode, "check", ck.returncode, "caught" if viol else "MISSED", caught_by[:3])
     finally:
